@@ -59,6 +59,9 @@ def run_case(case):
                     n = streamz.zip(*U)
                 elif kind == "combine":
                     n = streamz.combine_latest(*U)
+                elif kind == "combine_on0":
+                    # the same, with the trigger input given by POSITION (a falsy value)
+                    n = streamz.combine_latest(*U, emit_on=0)
                 elif kind == "combine_on":
                     # combine_latest that emits only when its FIRST input delivers (explicit emit_on)
                     n = streamz.combine_latest(*U, emit_on=U[0])
